@@ -35,6 +35,9 @@ def build(start, dt, stop):
     f.equation = r
     s.equation = f
     s.initial_value = 0.0
+    from BPTK_Py import sd_functions as sd
+    clock = m.converter("clock")
+    clock.equation = sd.time() * 1.0
     return m, s
 
 
@@ -97,13 +100,19 @@ def check_triple(start, dt, n, channels):
         for i in range(n + 1):
             routes = {"i*dt": start + i * dt, "repeated-add": acc, "t-dt-chain": downs[i], "label": want[i]}
             for rn, t in routes.items():
-                try:
-                    v = s(t)
-                except Exception as e:
-                    viol.append(("route-raises/%s" % rn, "start=%r dt=%r i=%d t=%r: %r" % (start, dt, i, t, e)))
-                    break
-                if not core.close(v, i, rel=1e-9, ab=1e-7):
-                    viol.append(("route-value/%s" % rn, "start=%r dt=%r i=%d t=%r: stock=%r, want %d" % (start, dt, i, t, v, i)))
+                # the three public ways of evaluating an element at a time: element(t), Model.evaluate_equation, Model.equation
+                for how, fn in (("", lambda tt: s(tt)), ("/evaluate_equation", lambda tt: m.evaluate_equation("s", tt)), ("/Model.equation", lambda tt: m.equation("s", tt)),
+                                ("/Model.equation(clock)", lambda tt: m.equation("clock", tt)), ("/clock(t)", lambda tt: m.evaluate_equation("clock", tt))):
+                    try:
+                        v = fn(t)
+                    except Exception as e:
+                        viol.append(("route-raises/%s%s" % (rn, how), "start=%r dt=%r i=%d t=%r: %r" % (start, dt, i, t, e)))
+                        break
+                    w = i if "clock" not in how else want[i]
+                    if (not core.close(v, w, rel=1e-9, ab=1e-7)) if "clock" not in how else (v != w):
+                        viol.append(("route-value/%s%s" % (rn, how), "start=%r dt=%r i=%d t=%r: %s=%r, want %r" % (start, dt, i, t, "stock" if "clock" not in how else "time()", v, w)))
+                        break
+                if viol:
                     break
             acc = acc + dt
             if viol:
@@ -273,8 +282,15 @@ def _work(part):
     return out
 
 
+LADDER = [1000, 2100, 5000]      # long ranges: timerange and one run (size ladder)
+
+
 def triples(tier):
     out = []
+    for s_ in (0, 0.3):
+        for d_ in (0.1, 0.01, 0.25):
+            for n_ in LADDER if tier == "thorough" else LADDER[:2]:
+                out.append((s_, d_, n_, ["timerange"] + (["plot"] if (s_, d_) == (0, 0.1) else [])))
     if tier == "quick":
         for s in STARTS:
             for d in DTS:
